@@ -116,8 +116,11 @@ class Diverged(Exception):
 
 
 class Controller:
-    def __init__(self, decisions, msgs):
+    def __init__(self, decisions, msgs, opts=None):
         self.decisions = [tuple(d) for d in decisions]
+        # scenario option: every suspension request brings its own condition (released by 'release#k' decisions)
+        self.independent = str((opts or {}).get("independent_conditions", "False")) == "True"
+        self.releases = []
         self.pos = 0
         self.diverged = None
         self.loop = StepLoop()
@@ -145,14 +148,16 @@ class Controller:
         self.errors = {}
         self.nresp = 0
         self.c04_expected, self.c04_rewindable, self.c04_nr, self.c04_bad = [], True, False, []
-        self.aux_msgs = set()
+        self.aux_msgs = {}                 # id(message of a suspender's pre / post plan) -> 'pre<n>' / 'post<n>'
+        self.aux_names = {}                # id(post-plan generator) -> 'post<n>'
         self.after_start_suspender = False
         self.mot_calls = []
         self.c11_stop_bad = []
         _Mot.ledger = self.mot_calls.append
         self.n_susp = 0
         self.mon_trace = []            # C41: ('msg', command, aux?, engine state, live subscriptions, monitors of open runs) / ('state', new, live, monitors)
-        self.suspend_plans = any(str(lab).startswith("pre") for lab, _ in self.decisions)
+        # (the scenario's option when the check passes it on; a counter-example may end before the first decision of a pre-plan)
+        self.suspend_plans = any(str(lab).startswith("pre") for lab, _ in self.decisions) or str((opts or {}).get("suspend_plans", "False")) == "True"
 
     NONREPLAYABLE = ("pause", "subscribe", "unsubscribe", "stage", "unstage", "monitor", "unmonitor", "open_run", "close_run",
                      "install_suspender", "remove_suspender", "_start_suspender")
@@ -204,12 +209,23 @@ class Controller:
                 self.c11_stop_bad.append("the motor was set but not told to stop when the suspension started")
         if msg.command == "_start_suspender":
             self.after_start_suspender = True
+            # which condition this suspension waits for (the bound `wait` of one of the events handed to request_suspend)
+            cond = getattr(msg.args[3], "__self__", None) if len(msg.args) > 3 else None
+            # the post-plan is the one REQUESTED together with this condition (roles as given to request_suspend, not as the message carries them)
+            cands = [q for q in getattr(self, "susp_requests", []) if not q["started"] and q["cond"] is cond]
+            mine = [q for q in cands if any(id(a) in (id(q["pre"]), id(q["post"])) for a in msg.args[:2])]
+            q = (mine or cands or [None])[0]
+            if q is not None:
+                q["started"] = True
+            for k, r in enumerate(self.releases):
+                if r is cond:
+                    self.trace.append(("in-effect", k, q["postname"] if q is not None else None))
         self.c04_update(msg)
         replayed = id(msg) in self.seen_msgs
         self.seen_msgs.add(id(msg))
         self.keep = getattr(self, "keep", [])
         self.keep.append(msg)
-        self.trace.append(("msg", msg.command, replayed, id(msg) in self.aux_msgs))
+        self.trace.append(("msg", msg.command, replayed, self.aux_msgs.get(id(msg), False)))
         if msg.command == "clear_checkpoint":
             self.section_nr = True
         elif msg.command == "checkpoint":
@@ -323,6 +339,12 @@ class Controller:
                 self.env_action(kind)
 
     def default_progress(self):
+        for k, r in enumerate(self.releases):
+            if not r.is_set() and not getattr(r, "fired", False):
+                r.fired = True
+                self.trace.append(("released", k))
+                self.loop.call_soon_threadsafe(r.set)
+                return True
         if self.release is not None and not self.release.is_set():
             self.loop.call_soon_threadsafe(self.release.set)
             return True
@@ -350,15 +372,20 @@ class Controller:
         elif kind == "pause_defer":
             in_thread(lambda: RE.request_pause(True))
         elif kind == "suspend":
-            if self.release is None or self.release.is_set():
+            if self.release is None or self.release.is_set() or self.independent:
                 self.release = asyncio.Event()
+                self.releases.append(self.release)
             rel = self.release
             if self.suspend_plans:
                 n = self.n_susp
                 self.n_susp += 1
                 pre, post = self.aux_plan(f"pre{n}"), self.aux_plan(f"post{n}")
+                self.aux_names[id(post)] = f"post{n}"
+                self.keep_aux_plans = getattr(self, "keep_aux_plans", []) + [pre, post]
+                self.susp_requests = getattr(self, "susp_requests", []) + [{"cond": rel, "pre": pre, "post": post, "postname": f"post{n}", "started": False}]
                 in_thread(lambda: RE.request_suspend(rel.wait, pre_plan=pre, post_plan=post, justification="beam dump"))
             else:
+                self.susp_requests = getattr(self, "susp_requests", []) + [{"cond": rel, "pre": None, "post": None, "postname": None, "started": False}]
                 in_thread(lambda: RE.request_suspend(rel.wait))
         elif kind == "abort":
             in_thread(lambda: RE.abort("because"))
@@ -375,8 +402,11 @@ class Controller:
                     break
         elif kind == "timer":
             loop.fire_timer()
-        elif kind == "release":
-            loop.call_soon_threadsafe(self.release.set)
+        elif kind == "release" or kind.startswith("release#"):
+            r = self.releases[int(kind.split("#")[1])] if "#" in kind else self.release
+            r.fired = True
+            self.trace.append(("released", next((k for k, x in enumerate(self.releases) if x is r), None)))
+            loop.call_soon_threadsafe(r.set)
         else:
             raise RuntimeError(f"unknown environment decision {kind}")
 
@@ -396,7 +426,7 @@ class Controller:
                 self.trace.append(("aux-done", prefix))
                 return
             m = MESSAGES[choice]()
-            self.aux_msgs.add(id(m))
+            self.aux_msgs[id(m)] = prefix
             self.keep_aux = getattr(self, "keep_aux", []) + [m]
             yield m
 
@@ -649,12 +679,12 @@ def install_shim(ctl):
     bre.threading = shim
 
 
-def run_native(decisions, msgs):
+def run_native(decisions, msgs, opts=None):
     del LEDGER[:]
     del _SIG.cbs[:]
     del _SIG_B.cbs[:]
     """-> dict(calls=[(name, outcome, state after, ...)], docs=[...], diverged=..., log=[...])"""
-    ctl = Controller(decisions, msgs)
+    ctl = Controller(decisions, msgs, opts)
     _CTL["ctl"] = ctl
     install_shim(ctl)
     ctl.main_thread = threading.Thread(target=ctl.main, daemon=True)
@@ -670,6 +700,8 @@ def run_native(decisions, msgs):
         RE.subscribe(lambda name, doc: docs.append((name, dict(doc), ctl.trace[-1][:2] == ("msg", "close_run") if ctl.trace else False)))
         RE.msg_hook = ctl.on_msg
         RE.state_hook = ctl.on_state
+        if "'record_interruptions': True" in str((opts or {}).get("re_attrs", "")):
+            RE.record_interruptions = True       # scenario option re_attrs (public configuration attribute)
         ctl.RE = RE
         return RE
     ctl.submit(construct)
@@ -734,6 +766,7 @@ def run_native(decisions, msgs):
     out["tokens_at_second_start"] = getattr(ctl, "tokens_at_second_start", None) or 1
     out["c11_stop_bad"] = ctl.c11_stop_bad
     out["mon_trace"] = ctl.mon_trace
+    out["record_interruptions"] = bool(getattr(RE, "record_interruptions", False))
     out["log"] = ctl.log
     out["plan_exc"] = getattr(ctl, "plan_exc", None)
     out["loop_errors"] = [str(c.get("exception")) for c in ctl.loop.errors]
@@ -869,37 +902,78 @@ def _violations(obligation, res):
             "_start_suspender#ensures" in art_obligation or "request_suspend#ensures" in art_obligation or "while the plan is suspended" in tag):
         only_susp = not any(x[0] == "request" and x[1] in ("pause", "pause_defer", "abort", "stop", "halt") for x in res["log"]) and \
             not any(c["call"] in ("abort", "stop", "halt") for c in res["calls"])
-        phase, released, post_done = None, False, {}
-        n_started = -1
+        # (mirror of contracts/run_mon3.py C11) one record per suspension in effect: [condition index, post-plan name, 'started' | 'released'],
+        # in the order their _start_suspender was executed; the innermost one still waiting resumes first
+        phase, released, post_done, records = None, set(), {}, []
         for x in tr:
             if x[0] == "state" and x[1] == "suspending" and phase is None:
                 phase = "requested"
             elif x[0] == "aux-done":
                 post_done[x[1]] = True
+            elif x[0] == "released":
+                released.add(x[1])
+            elif x[0] == "in-effect" and phase is not None:
+                records.append([x[1], x[2] if len(x) > 2 else None, "started"])
             elif x[0] == "msg":
                 cmd, aux = x[1], (x[3] if len(x) > 3 else False)
                 if phase == "requested":
                     if cmd != "_start_suspender" and only_susp and tag.startswith("ensures[once a suspension has taken effect"):
                         bad.append(f"after the suspension took effect the next message executed was {cmd!r}")
                     if cmd == "_start_suspender":
-                        phase, n_started = "started", n_started + 1
-                elif phase == "started":
+                        phase = "started"
+                elif phase in ("started", "released"):
                     if cmd == "_start_suspender":
-                        n_started += 1
+                        phase = "started"
                     elif cmd == "_resume_from_suspender":
-                        rel = any(y[0] == "request" and y[1] == "release" for y in res["log"])
-                        if not rel and only_susp and tag.startswith("ensures[the plan stays held"):
-                            bad.append("the plan went on although the suspender's condition was never released")
-                        phase = "released"
-                    elif not (cmd in ("rewindable", "wait_for") or aux) and only_susp and tag.startswith("ensures[while suspended only"):
-                        bad.append(f"message {cmd!r} was executed while the plan was suspended")
-                elif phase == "released":
-                    if not (cmd in ("rewindable", "_start_suspender") or aux):
-                        if res.get("suspend_plans") and not post_done.get(f"post{n_started}") and only_susp and tag.startswith("ensures[after the release the post-plan"):
-                            bad.append(f"message {cmd!r} was executed after the release before the post-plan had finished")
-                        phase = None
+                        waiting = [r for r in records if r[2] == "started"]
+                        if waiting:
+                            r = waiting[-1]
+                            if r[0] not in released and only_susp and tag.startswith("ensures[the plan stays held"):
+                                bad.append(f"the helper plan of suspension {r[0]} went on to '_resume_from_suspender' although its condition was not released")
+                            r[2] = "released"
+                        phase = "started" if any(r[2] == "started" for r in records) else "released"
+                    elif isinstance(aux, str) and aux.startswith("post"):
+                        r = next((r for r in records if r[1] == aux), None)
+                        if r is not None and r[0] not in released and only_susp and tag.startswith("ensures[while suspended only"):
+                            bad.append(f"a message of post-plan {aux} was executed before its suspension was released")
+                    elif cmd == "wait_for" and not aux:
+                        waiting = [r for r in records if r[2] == "started"]
+                        if waiting and waiting[-1][1] and res.get("suspend_plans") and only_susp and tag.startswith("ensures[the suspender's pre-plan has run"):
+                            pre = "pre" + waiting[-1][1][len("post"):]
+                            if not post_done.get(pre):
+                                bad.append(f"the engine started to wait for the condition before pre-plan {pre} had finished")
+                    elif cmd == "rewindable" or aux:
+                        pass
+                    else:
+                        # a message of the plan, or a replayed one
+                        if only_susp:
+                            if any(r[2] == "started" for r in records) and tag.startswith("ensures[while suspended only"):
+                                bad.append(f"message {cmd!r} was executed while the plan was suspended")
+                            held = [r[0] for r in records if r[0] not in released]
+                            if held and tag.startswith("ensures[overlapping suspensions"):
+                                bad.append(f"message {cmd!r} ({'replayed' if x[2] else 'of the plan'}) was executed while the condition of suspension(s) {held} "
+                                           f"(of {[r[0] for r in records]} in effect) was not released")
+                            if all(r[2] == "released" for r in records) and tag.startswith("ensures[after the release the post-plan"):
+                                late = [r[1] for r in records if r[1] is not None and not post_done.get(r[1])]
+                                if late:
+                                    bad.append(f"message {cmd!r} was executed after the release before the post-plan(s) {late} had finished")
+                        phase, records = None, []
         if tag.startswith("ensures[at suspension every device that was moved"):
             bad.extend(res.get("c11_stop_bad", []))
+        if tag.startswith("ensures[the interruption is recorded in every open run"):
+            # the 'interruptions' stream of the documents: one event with the suspender's justification per suspension that started inside an open run
+            want = "beam dump" if res.get("suspend_plans") else "suspended"
+            contents = [d[1]["data"]["interruption"] for d in res["docs"] if d[0] == "event" and "interruption" in (d[1].get("data") or {})]
+            run_open, started_in_run = False, 0
+            for x in tr:
+                if x[0] == "msg" and x[1] == "open_run":
+                    run_open = True
+                elif x[0] == "msg" and x[1] == "close_run":
+                    run_open = False
+                elif x[0] == "msg" and x[1] == "_start_suspender" and run_open:
+                    started_in_run += 1
+            if res.get("record_interruptions") and started_in_run and contents.count(want) < started_in_run:
+                bad.append(f"{started_in_run} suspension(s) started inside an open run with justification {want!r}; the interruptions recorded are {contents}")
     elif "holds a live monitor subscription" in tag or tag.startswith("ensures[once the engine runs again after a pause or a suspension every monitor"):
         # C41: the subscription ledger of the monitored fake signals, sampled at every message (msg_hook) and state change (state_hook)
         undisturbed = not any(x[0] == "request" and x[1] in ("abort", "stop", "halt") for x in res["log"]) and \
@@ -968,7 +1042,7 @@ def _violations(obligation, res):
 def replay(model, info, art):
     decisions = art.get("decisions") or []
     msgs = (info.get("scenario") or {}).get("msgs") or list(MESSAGES)
-    res = run_native(decisions, msgs)
+    res = run_native(decisions, msgs, (info.get("scenario") or {}).get("opts"))
     res["failed_pause"] = any(x[0] == "plan-throw" and x[2] == "FailedPause" for x in res["log"])
     obligation = art.get("obligation", "")
     if obligation.startswith("known-"):
